@@ -100,8 +100,11 @@ Ltac num_fact2 :=
         | apply Rle_not_lt; first [lra | ivl] | apply Rlt_not_le; first [lra | ivl]
         | apply Rlt_not_eq; first [lra | ivl] | apply Rgt_not_eq; first [lra | ivl]
         | (intro; lra) ].
+Lemma near_refl tol x : 0 <= tol -> near tol x x.
+Proof. intros H. unfold near. replace (x - x) with 0 by ring. rewrite Rabs_R0. apply Rmult_le_pos; [exact H|]. pose proof (Rabs_pos x). lra. Qed.
 Ltac close_leaf :=
   match goal with
+  | |- near _ ?x ?x => apply near_refl; lra         (* a value passed through untouched *)
   | |- near _ _ _ => unfold near, Rminus; norm_dec; norm_max; unfold log10; first [ ivl | (rewrite Rabs_right by lra; lra) | lra ]
   | |- True => exact I
   | |- @eq _ _ _ => reflexivity
